@@ -326,4 +326,64 @@ theorem step_items {o : Oracle} {s s' : St} {op : Op} {items : List Item} (hs : 
     unfold stepRun at h
     simp [step] at h
 
+/-- the key wrapper and the header VALUE a step hands to `WrapKey` -/
+def Op.kwArgs? : Op → Option (KW × Hdr)
+  | .wrapKey kw _ h => some (kw, h)
+  | .newMessageKW _ kw h => if kw.isDeriver then none else some (kw, h)
+  | .encrypt _ kw h => some (kw, h)
+  | _ => none
+
+/-- a successful step that wraps a key ran `kwWrap` on exactly the header value of the operation,
+    and hands out everything `kwWrap` handed out -/
+theorem step_kwWrap {o : Oracle} {s s' : St} {op : Op} {items : List Item} {kw : KW} {hd : Hdr}
+    (ha : op.kwArgs? = some (kw, hd)) (h : stepRun o s op = (.ok items, s')) :
+    ∃ n h' kitems s1 s2, (kwWrap kw n hd).run o s1 = (.ok (h', kitems), s2) ∧
+      ∀ it ∈ kitems, it ∈ items := by
+  cases op with
+  | wrapKey kw' n hd' =>
+    simp [Op.kwArgs?] at ha
+    obtain ⟨rfl, rfl⟩ := ha
+    unfold stepRun at h
+    simp only [step] at h
+    obtain ⟨⟨hd', kitems⟩, s1, h1, h2⟩ := M.run_bind_eq_ok o _ _ _ _ _ h
+    simp at h2
+    obtain ⟨rfl, rfl⟩ := h2
+    exact ⟨n, hd', _, s, _, h1, fun _ hit => hit⟩
+  | encrypt m kw' hd' =>
+    simp [Op.kwArgs?] at ha
+    obtain ⟨rfl, rfl⟩ := ha
+    unfold stepRun at h
+    simp only [step] at h
+    obtain ⟨x, s1, _, h⟩ := M.run_bind_eq_ok o _ _ _ _ _ h
+    obtain ⟨⟨hd', kitems⟩, s2, h2, h3⟩ := M.run_bind_eq_ok o _ _ _ _ _ h
+    simp at h3
+    obtain ⟨rfl, rfl⟩ := h3
+    exact ⟨_, hd', _, s1, _, h2, fun _ hit => hit⟩
+  | newMessageKW e kw' hd' =>
+    by_cases hder : kw'.isDeriver = true
+    · simp [Op.kwArgs?, hder] at ha
+    · simp [Op.kwArgs?, hder] at ha
+      obtain ⟨rfl, rfl⟩ := ha
+      unfold stepRun at h
+      simp only [step, hder] at h
+      obtain ⟨⟨i1, cek⟩, s1, _, h⟩ := M.run_bind_eq_ok o _ _ _ _ _ h
+      simp only at h
+      obtain ⟨⟨i2, iv⟩, s2, _, h⟩ := M.run_bind_eq_ok o _ _ _ _ _ h
+      simp only at h
+      obtain ⟨⟨hd', kitems⟩, s3, h3, h⟩ := M.run_bind_eq_ok o _ _ _ _ _ h
+      simp only at h
+      obtain ⟨_, s4, _, h⟩ := M.run_bind_eq_ok o _ _ _ _ _ h
+      obtain ⟨m, s5, _, h⟩ := M.run_bind_eq_ok o _ _ _ _ _ h
+      simp only [M.run_pure, Prod.mk.injEq, Outcome.ok.injEq] at h
+      obtain ⟨rfl, rfl⟩ := h
+      exact ⟨_, hd', _, s2, _, h3, fun _ hit => List.mem_append_right _ hit⟩
+  | newGcm _ => simp [Op.kwArgs?] at ha
+  | gcmCEK _ => simp [Op.kwArgs?] at ha
+  | gcmIV _ => simp [Op.kwArgs?] at ha
+  | cbcCEK _ => simp [Op.kwArgs?] at ha
+  | cbcIV _ => simp [Op.kwArgs?] at ha
+  | deriveKey _ _ => simp [Op.kwArgs?] at ha
+  | newMessage _ => simp [Op.kwArgs?] at ha
+  | bad => simp [Op.kwArgs?] at ha
+
 end Model.Rand
